@@ -152,6 +152,11 @@ class _FP:
             out["%s/attr/%s" % (pfx, k)] = self.canon(v)
         pts = list(part._points)
         out[pfx + "/npoints"] = len(pts)
+        # the timeline itself, in one entry (so that a report names it): every time point with its time, quarter duration,
+        # identity and the identities of its neighbours; the per-point entries below repeat this with everything else
+        out[pfx + "/timeline"] = [[self.canon(tp.t), self.canon(getattr(tp, "quarter", None)), self.ident(tp),
+                                   None if tp.prev is None else self.ident(tp.prev), None if tp.next is None else self.ident(tp.next)] for tp in pts]
+        out[pfx + "/timeline/container"] = [type(part._points).__name__, str(getattr(part._points, "dtype", ""))]
         done = set()
         for j, tp in enumerate(pts):
             rec = {"t": self.canon(tp.t), "id": self.ident(tp),
@@ -278,7 +283,21 @@ def fp_diff(a, b, limit=8):
 def describe_diff(a, b, limit=6):
     d = fp_diff(a, b)
     out = []
-    for k in d[:limit]:
+    for k in d:
+        if k.endswith("/timeline"):
+            # the timeline in readable form first: times (quarter durations), which points are new / gone / relinked
+            A, B = a.get(k) or [], b.get(k) or []
+            if isinstance(A, list) and isinstance(B, list):
+                show = lambda X: ", ".join("%s(q=%s)" % (x[0][1] if isinstance(x[0], list) else x[0], x[1][1] if isinstance(x[1], list) else x[1]) for x in X[:24])
+                ida, idb = {x[2]: x for x in A}, {x[2]: x for x in B}
+                added = [x[0][1] for x in B if x[2] not in ida]
+                gone = [x[0][1] for x in A if x[2] not in idb]
+                relinked = [x[0][1] for x in B if x[2] in ida and (ida[x[2]][3], ida[x[2]][4]) != (x[3], x[4])]
+                requart = [x[0][1] for x in B if x[2] in ida and ida[x[2]][1] != x[1]]
+                out.append("%s: time points of the part [%s] -> [%s]; time point objects added at t=%s, removed at t=%s, prev/next rewired at t=%s, quarter changed at t=%s"
+                           % (k, show(A), show(B), added, gone, relinked, requart))
+    shown = {x.split(":")[0] for x in out}
+    for k in [k for k in d if k not in shown][:limit]:
         out.append("%s: %s -> %s" % (k, json.dumps(a.get(k, "<absent>"), default=str)[:160], json.dumps(b.get(k, "<absent>"), default=str)[:160]))
     return d, out
 
@@ -290,6 +309,9 @@ def field_of(path):
     m = re.search(r"/o\d+:(\w+)/(.+)$", path)
     if m:
         return "%s.%s" % (m.group(1), m.group(2))
+    m = re.search(r"/P\d+/(npoints|timeline|timeline/container)$", path)
+    if m:
+        return "Part._points (%s)" % {"npoints": "number of time points", "timeline": "the time points, their quarter and prev/next", "timeline/container": "container type"}[m.group(1)]
     m = re.search(r"/tp\d+/(.+)$", path)
     if m:
         return "TimePoint.%s" % m.group(1)
@@ -351,7 +373,7 @@ SYM = {Fraction(4): "whole", Fraction(2): "half", Fraction(1): "quarter", Fracti
        Fraction(1, 4): "16th", Fraction(3): ("half", 1), Fraction(3, 2): ("quarter", 1), Fraction(3, 4): ("eighth", 1)}
 
 
-def gen_part_spec(rng, pid="P0", rich=True, n_meas=None):
+def gen_part_spec(rng, pid="P0", rich=True, n_meas=None, timeline=None):
     q = rng.choice([1, 2, 4, 4, 12, 12, 480])
     beats = rng.choice([4, 4, 3, 2])
     n_meas = n_meas or rng.randint(2, 6)
@@ -433,6 +455,8 @@ def gen_part_spec(rng, pid="P0", rich=True, n_meas=None):
             spec["pickup"] = rng.choice([grid, q]) if q < mlen else grid
         if rng.random() < 0.15:
             spec["musical_beat"] = True
+        if timeline or (timeline is None and rng.random() < 0.3):
+            gen_timeline_features(rng, spec, strong=bool(timeline))
     nn = len(spec["notes"])
     real = [i for i, n in enumerate(spec["notes"]) if not n["grace"]]
     if rich and len(real) >= 2:
@@ -490,7 +514,7 @@ def gen_part_spec(rng, pid="P0", rich=True, n_meas=None):
             spec["clefs"].append([mlen, 1, ["F", 4]])
         for _ in range(rng.choice([0, 0, 1, 2])):
             spec["dirs"].append([rng.choice(["f", "p", "tempo", "cresc", "words", "fermata"]), rng.randrange(0, total, grid)])
-        if rng.random() < 0.15:
+        if n_meas >= 2 and rng.random() < 0.15:
             spec["ts2"] = [rng.randrange(1, n_meas) * mlen, rng.choice([[3, 4], [6, 8], [2, 4]])]
         # navigation: weights on the combinations singled out by the property (segments are created lazily)
         r = rng.random()
@@ -516,7 +540,154 @@ def gen_part_spec(rng, pid="P0", rich=True, n_meas=None):
         elif r < 0.8 and n_meas >= 4:
             spec["repeats"].append([0, bars[1]])
             spec["repeats"].append([bars[2], bars[3]])
+        # a jump that awaits the second round (Fine / To Coda) on a part whose Segment objects are already registered: the path
+        # search then works on the part's OWN segments (measured: the combination was met 0-3 times per quick run)
+        if any(k in ("fine", "tocoda") for k, _ in spec["nav"]) and rng.random() < 0.6:
+            spec["segments"] = True
     return spec
+
+
+def _spec_times(spec):
+    """times (relative to spec['offset']) at which the spec puts a time point for sure: starts / ends of notes and rests, barlines"""
+    mlen = spec["beats"] * spec["q"]
+    occ = set()
+    for n in spec["notes"] + spec["rests"]:
+        occ.add(n["t"])
+        occ.add(n["t"] + n["d"])
+    if spec.get("measures"):
+        occ.update(k * mlen for k in range(spec["n_meas"] + 1))
+        if spec.get("pickup"):
+            occ.add(int(spec["pickup"]))
+    occ.add(0)
+    return occ
+
+
+def gen_timeline_features(rng, spec, strong=False):
+    """Shapes of the TIMELINE the read-only entry points branch on (exporters split measures at changes of divisions, look
+    up time points, walk prev/next; maps interpolate over quarter times): changes of the quarter duration at times with and
+    WITHOUT a time point (inside a measure, in a gap between notes, at a barline, before the first / after the last object,
+    several in one measure, redundant / replaced ones), a first time point > 0, parts without notes / with one note / without
+    anything, signatures and clefs where nothing else happens, objects without an end, zero-length objects, float-valued
+    integral times.  Everything is written into the JSON spec (qchanges in ABSOLUTE time, all other times relative to
+    spec['offset']); the distribution is measured on the BUILT parts (timeline_stats)."""
+    q, mlen, n_meas = spec["q"], spec["beats"] * spec["q"], spec["n_meas"]
+    total = n_meas * mlen
+    p = (lambda x: rng.random() < (x * 2.2 if strong else x))
+    # parts without notes / with a single note / with nothing at all
+    r = rng.random()
+    if r < (0.2 if strong else 0.08):
+        how = rng.choice(["empty", "one", "one", "bare"])
+        keep = [n for n in spec["notes"] if not n["grace"]][:1] if how == "one" else []
+        spec["notes"], spec["rests"] = keep, ([] if how != "one" or rng.random() < 0.5 else spec["rests"][:1])
+        spec["trim"] = how
+        spec.pop("empty_measure", None)
+        spec.pop("voice_polyphony", None)
+        if how == "bare":
+            spec["measures"] = False
+            spec["pickup"] = False
+    if p(0.3):
+        spec["offset"] = rng.choice([1, 1, max(1, q // 2), q, mlen, mlen + 1, 7])
+    off = spec.get("offset", 0)
+    if p(0.12):
+        spec["float_times"] = rng.choice(["all", "some", "some"])
+    # changes of the quarter duration
+    if p(0.4):
+        occ = _spec_times(spec)
+        bars = [k * mlen for k in range(1, n_meas)]
+        on_mid = sorted(t for t in occ if 0 < t < total and t % mlen != 0)
+        off_mid = [t for t in range(1, total) if t not in occ and t % mlen != 0]
+        if len(off_mid) > 400:
+            off_mid = rng.sample(off_mid, 400)
+        qs = sorted({2 * q, 3 * q, max(1, q // 2), q + 1, 1, 4} - {q})
+        changes = []
+        for _ in range(rng.choice([1, 1, 2, 3])):
+            where = rng.choice(["barline", "on_point", "off_point", "off_point", "gap", "gap", "before_first", "after_last", "same_measure", "at_zero"])
+            q2 = rng.choice(qs)
+            if where == "barline" and bars:
+                changes.append([off + rng.choice(bars), q2])
+            elif where == "on_point" and on_mid:
+                changes.append([off + rng.choice(on_mid), q2])
+            elif where == "off_point" and off_mid:
+                changes.append([off + rng.choice(off_mid), q2])
+            elif where == "gap" and total >= 4:
+                # nothing starts or ends around t (all voices): the change falls between two notes
+                t = rng.randrange(1, total - 1)
+                w = rng.choice([1, max(1, q // 2), q])
+                lo, hi = t - w, t + w
+                for key in ("notes", "rests"):
+                    spec[key] = [n for n in spec[key] if (n["t"] + n["d"] <= lo or n["t"] >= hi) and not (lo < n["t"] + n["d"] < hi) and not (lo < n["t"] < hi)
+                                 and not (n["t"] <= lo and n["t"] + n["d"] >= hi)]
+                if t % mlen != 0 or not spec.get("measures"):
+                    changes.append([off + t, q2])
+            elif where == "before_first":
+                changes.append([rng.randrange(0, off) if off > 0 else 0, q2])
+            elif where == "after_last":
+                changes.append([off + total + rng.choice([0, 1, q, mlen]), q2])
+            elif where == "at_zero":
+                changes.append([0, q2])
+            elif where == "same_measure":
+                k = rng.randrange(n_meas)
+                inside = [t for t in range(k * mlen + 1, (k + 1) * mlen)]
+                for t in sorted(rng.sample(inside, min(len(inside), rng.choice([2, 2, 3])))):
+                    changes.append([off + t, rng.choice(qs)])
+        # redundant changes: the value already in force, or a change that is replaced by the old value at the same time
+        if changes and rng.random() < 0.35:
+            t, q2 = rng.choice(changes)
+            changes.append([t, q] if rng.random() < 0.5 else [t + rng.choice([1, q]), q2])
+        if changes:
+            spec["qchanges"] = changes
+            spec["qstage"] = rng.choice(["early", "mid", "late", "late"])
+    # signatures / clefs at times where no note starts or ends (also after the last object)
+    if p(0.25):
+        occ = _spec_times(spec)
+        free = [t for t in range(1, total + mlen) if t not in occ] or [total + 1]
+        for _ in range(rng.choice([1, 1, 2, 3])):
+            t = rng.choice(free)
+            kind = rng.choice(["ts", "ks", "clef"])
+            val = {"ts": rng.choice([[3, 4], [6, 8], [5, 8], [2, 2]]), "ks": [rng.randint(-6, 6), rng.choice(["major", "minor", None])],
+                   "clef": [rng.choice([1, spec["staves"]]), rng.choice(["G", "F", "C"]), rng.choice([2, 3, 4])]}[kind]
+            spec.setdefault("attrs_at", []).append([kind, t, val])
+    # objects without an end (part.add(o, start)), zero-length objects
+    if p(0.2):
+        for _ in range(rng.choice([1, 1, 2])):
+            cls = rng.choice(["Slur", "Cresc", "Ending", "Repeat", "Measure", "Words", "Tuplet", "Note", "Rest"])
+            spec.setdefault("open", []).append([cls, rng.randrange(0, total + 1, max(1, q // 2))])
+    if p(0.2):
+        for _ in range(rng.choice([1, 1, 2])):
+            cls = rng.choice(["Note", "Note", "Rest", "Measure", "Slur", "Repeat", "Cresc", "Ending"])
+            spec.setdefault("zero", []).append([cls, rng.randrange(0, total + 1, max(1, q // 2))])
+    spec["timeline"] = True
+
+
+
+def directed_timeline_specs():
+    """the checklist of positions of a change of divisions, on one small part: Part(quarter_duration=2), 4/4, two measures [0, 8) [8, 16),
+    notes 0-3, 6-10, 10-12, 12-16 (time points 0, 3, 6, 8, 10, 12, 16; nothing sounds in [3, 6))"""
+    def part(qchanges, stage="late", offset=0, **kw):
+        notes = [{"t": t, "d": d, "step": st, "alter": None, "oct": 4, "voice": 1, "staff": 1, "sym": None, "id": "n%d" % k, "grace": False}
+                 for k, (t, d, st) in enumerate([(0, 3, "C"), (6, 4, "D"), (10, 2, "E"), (12, 4, "F")])]
+        ps = {"id": "P0", "q": 2, "beats": 4, "n_meas": 2, "name": None, "notes": notes, "rests": [], "ties": [], "slurs": [], "tuplets": [],
+              "repeats": [], "endings": [], "nav": [], "keysig": None, "clefs": [], "dirs": [], "measures": True, "pickup": False, "ids": "all",
+              "staves": 1, "segments": False, "qchanges": qchanges, "qstage": stage, "timeline": True}
+        if offset:
+            ps["offset"] = offset
+        ps.update(kw)
+        return ps
+
+    return [part([[4, 4]]),                              # inside a measure, in a gap between notes, no time point
+            part([[7, 4]]),                              # inside a measure, inside a sounding note, no time point
+            part([[6, 4]]),                              # inside a measure, at a time point
+            part([[8, 4]]),                              # at a barline
+            part([[4, 4], [5, 1], [7, 3]]),              # three in one measure, none at a time point
+            part([[4, 4], [4, 2], [5, 2]]),              # replaced by the old value (entry repeating the value in force) + a no-op
+            part([[20, 4]]),                             # after the last time point
+            part([[16, 4]]),                             # at the last time point
+            part([[2, 4]], offset=4),                    # before the first time point (all objects shifted by 4)
+            part([[0, 3], [9, 4]], offset=4),            # the initial value replaced; a change in the shifted gap
+            part([[4, 4]], stage="early"),               # set before any object exists
+            part([[4, 4], [13, 1]], stage="mid"),        # set before add_measures (barlines follow the new divisions)
+            part([[4, 4]], measures=False),              # no Measure objects at all
+            part([[4, 4]], float_times="all")]           # float-valued integral times
 
 
 def build_part(spec):
@@ -526,28 +697,55 @@ def build_part(spec):
     p = S.Part(spec["id"], part_name=spec.get("name"), quarter_duration=q)
     mlen = spec["beats"] * q
     total = spec["n_meas"] * mlen
-    p.add(S.TimeSignature(spec["beats"], 4), 0)
+    off = spec.get("offset", 0)  # the first time point of the part is > 0
+    fl = spec.get("float_times")
+    cnt = [0]
+
+    def T(t):
+        """time as given to part.add: shifted by the offset; float-valued (but integral) for all / every second call"""
+        cnt[0] += 1
+        t = int(t) + off
+        return float(t) if fl == "all" or (fl == "some" and cnt[0] % 2 == 0) else t
+
+    def qchanges():
+        for t, q2 in spec.get("qchanges", []):
+            p.set_quarter_duration(int(t), int(q2))
+
+    if spec.get("trim") == "bare":
+        # a part without any object (no time point at all), possibly with a divisions table
+        qchanges()
+        return p
+    if spec.get("qstage") == "early":
+        qchanges()
+    p.add(S.TimeSignature(spec["beats"], 4), T(0))
     if spec.get("musical_beat") and not spec.get("ts2"):
-        p.add(S.TimeSignature(6, 8), (spec["n_meas"] // 2) * mlen)
+        p.add(S.TimeSignature(6, 8), T((spec["n_meas"] // 2) * mlen))
     if spec.get("ts2"):
-        p.add(S.TimeSignature(*spec["ts2"][1]), spec["ts2"][0])
+        p.add(S.TimeSignature(*spec["ts2"][1]), T(spec["ts2"][0]))
     if spec.get("keysig"):
-        p.add(S.KeySignature(spec["keysig"][0], spec["keysig"][1]), 0)
+        p.add(S.KeySignature(spec["keysig"][0], spec["keysig"][1]), T(0))
     for t, staff, (sign, line) in spec.get("clefs", []):
-        p.add(S.Clef(staff=staff, sign=sign, line=line, octave_change=0), t)
+        p.add(S.Clef(staff=staff, sign=sign, line=line, octave_change=0), T(t))
+    for kind, t, val in spec.get("attrs_at", []):
+        if kind == "ts":
+            p.add(S.TimeSignature(*val), T(t))
+        elif kind == "ks":
+            p.add(S.KeySignature(val[0], val[1]), T(t))
+        else:
+            p.add(S.Clef(staff=val[0], sign=val[1], line=val[2], octave_change=0), T(t))
     objs = []
     for n in spec["notes"]:
         if n["grace"]:
             o = S.GraceNote("acciaccatura", step=n["step"], octave=n["oct"], alter=n["alter"], id=n["id"], voice=n["voice"], staff=n["staff"],
                             symbolic_duration=dict(n["sym"]) if n["sym"] else None)
-            p.add(o, n["t"], n["t"])
+            p.add(o, T(n["t"]), T(n["t"]))
         else:
             o = S.Note(step=n["step"], octave=n["oct"], alter=n["alter"], id=n["id"], voice=n["voice"], staff=n["staff"],
                        symbolic_duration=dict(n["sym"]) if n["sym"] else None)
-            p.add(o, n["t"], n["t"] + n["d"])
+            p.add(o, T(n["t"]), T(n["t"] + n["d"]))
         objs.append(o)
     for r in spec["rests"]:
-        p.add(S.Rest(id=r["id"], voice=r["voice"], staff=r["staff"], symbolic_duration=dict(r["sym"]) if r["sym"] else None), r["t"], r["t"] + r["d"])
+        p.add(S.Rest(id=r["id"], voice=r["voice"], staff=r["staff"], symbolic_duration=dict(r["sym"]) if r["sym"] else None), T(r["t"]), T(r["t"] + r["d"]))
     for i, j in spec["ties"]:
         objs[i].tie_next = objs[j]
         objs[j].tie_prev = objs[i]
@@ -559,31 +757,124 @@ def build_part(spec):
         p.add(tu, objs[i].start.t, objs[j].end.t)
     for kind, t in spec.get("dirs", []):
         if kind in ("f", "p"):
-            p.add(S.ConstantLoudnessDirection(kind), t)
+            p.add(S.ConstantLoudnessDirection(kind), T(t))
         elif kind == "tempo":
-            p.add(S.Tempo(96, "q"), t)
+            p.add(S.Tempo(96, "q"), T(t))
         elif kind == "cresc":
-            p.add(S.IncreasingLoudnessDirection("cresc."), t, min(total, t + mlen))
+            p.add(S.IncreasingLoudnessDirection("cresc."), T(t), T(min(total, t + mlen)))
         elif kind == "words":
-            p.add(S.Words("dolce"), t)
+            p.add(S.Words("dolce"), T(t))
         elif kind == "fermata":
-            p.add(S.Fermata(None), t)
+            p.add(S.Fermata(None), T(t))
     for s, e in spec["repeats"]:
-        p.add(S.Repeat(), s, e)
+        p.add(S.Repeat(), T(s), T(e))
     for s, e, num in spec["endings"]:
-        p.add(S.Ending(num), s, e)
+        p.add(S.Ending(num), T(s), T(e))
     for kind, t in spec["nav"]:
         cls = {"fine": S.Fine, "dacapo": S.DaCapo, "segno": S.Segno, "dalsegno": S.DalSegno, "coda": S.Coda, "tocoda": S.ToCoda}[kind]
-        p.add(cls(), t)
+        p.add(cls(), T(t))
+
+    def mk(cls, k):
+        return {"Slur": lambda: S.Slur(), "Cresc": lambda: S.IncreasingLoudnessDirection("cresc."), "Ending": lambda: S.Ending("1"),
+                "Repeat": lambda: S.Repeat(), "Measure": lambda: S.Measure(number=90 + k), "Words": lambda: S.Words("x"),
+                "Tuplet": lambda: S.Tuplet(actual_notes=3, normal_notes=2),
+                "Note": lambda: S.Note(step="C", octave=4, id="x%d" % k if spec.get("ids") != "none" else None, voice=1, staff=1),
+                "Rest": lambda: S.Rest(id="y%d" % k if spec.get("ids") != "none" else None, voice=1, staff=1)}[cls]()
+
+    # objects without an end: part.add(o, start)
+    for k, (cls, t) in enumerate(spec.get("open", [])):
+        if cls != "Measure":
+            p.add(mk(cls, k), T(t))
+    # zero-length objects (start == end)
+    for k, (cls, t) in enumerate(spec.get("zero", [])):
+        if cls != "Measure":
+            p.add(mk(cls, 10 + k), T(t), T(t))
+    if spec.get("qstage") == "mid":
+        qchanges()
     if spec.get("measures", True):
         if spec.get("pickup"):
-            p.add(S.Measure(number=0), 0, int(spec["pickup"]))
+            p.add(S.Measure(number=0), T(0), T(int(spec["pickup"])))
         S.add_measures(p)
+    # a measure without end / of length 0 (what load_kern leaves after a final barline) -- after add_measures, which refuses them
+    for k, (cls, t) in enumerate(spec.get("open", [])):
+        if cls == "Measure":
+            p.add(mk(cls, k), T(t))
+    for k, (cls, t) in enumerate(spec.get("zero", [])):
+        if cls == "Measure":
+            p.add(mk(cls, 10 + k), T(t), T(t))
     if spec.get("segments"):
         S.add_segments(p)
     if spec.get("musical_beat"):
         p.use_musical_beat()
+    if spec.get("qstage") == "late":
+        qchanges()
     return p
+
+
+def timeline_stats(part):
+    """structural features of a BUILT part's timeline (for evidence: coverage.distribution, keys `timeline/...`)"""
+    import partitura.score as S
+
+    out = []
+    pts = list(part._points)
+    ts = [tp.t for tp in pts]
+    tset = set(ts)
+    if not pts:
+        out.append("no time point at all")
+    elif ts[0] > 0:
+        out.append("first time point > 0")
+    if any(isinstance(t, float) for t in ts):
+        out.append("float-valued time points")
+    notes = list(part.iter_all(S.GenericNote, include_subclasses=True))
+    out.append("notes+rests: %s" % ("0" if not notes else "1" if len(notes) == 1 else "2+"))
+    qt, qd = list(part._quarter_times), list(part._quarter_durations)
+    meas = [(m.start.t, m.end.t) for m in part.iter_all(S.Measure) if m.end is not None]
+    out.append("divisions changes: %s" % ("0" if len(qt) == 1 else "1" if len(qt) == 2 else "2+"))
+    if qt and qt[0] != 0:
+        out.append("divisions table does not start at 0")
+    per_meas = {}
+    for i, (t, qq) in enumerate(zip(qt, qd)):
+        if i == 0:
+            continue
+        has = t in tset
+        inside = [m for m in meas if m[0] < t < m[1]]
+        if ts and t < ts[0]:
+            where = "before the first time point"
+        elif ts and t > ts[-1]:
+            where = "after the last time point"
+        elif ts and t == ts[-1]:
+            where = "at the last time point"
+        elif inside:
+            where = "inside a measure"
+            per_meas[inside[0]] = per_meas.get(inside[0], 0) + 1
+        elif any(t == m[0] for m in meas):
+            where = "at a barline"
+        else:
+            where = "outside every measure"
+        out.append("divisions change %s %s" % (where, "WITH a time point" if has else "WITHOUT a time point"))
+        if inside and not has:
+            sounding = any(n.start.t < t and n.end is not None and n.end.t > t for n in notes)
+            out.append("divisions change inside a measure without a time point, %s" % ("inside a note" if sounding else "in a gap"))
+        if qq == qd[i - 1]:
+            out.append("divisions entry repeating the value in force")
+    if any(v >= 2 for v in per_meas.values()):
+        out.append("2+ divisions changes inside one measure")
+    for cls, lab in ((S.TimeSignature, "time signature"), (S.KeySignature, "key signature"), (S.Clef, "clef")):
+        for o in part.iter_all(cls):
+            t = o.start.t
+            alone = not any(n.start.t == t or (n.end is not None and n.end.t == t) for n in notes)
+            if alone and t > (ts[0] if ts else 0):
+                out.append("%s where no note starts or ends%s" % (lab, " (after the last note)" if notes and t > max(n.start.t for n in notes) else ""))
+    for o in part.iter_all(S.TimedObject, include_subclasses=True):
+        if o.end is None and isinstance(o, (S.GenericNote, S.Slur, S.Tuplet, S.Measure, S.Repeat, S.Ending, S.IncreasingLoudnessDirection)):
+            out.append("object without end: %s" % type(o).__name__)
+        elif o.end is not None and o.end.t == o.start.t and not isinstance(o, S.GraceNote):
+            out.append("zero-length object: %s" % type(o).__name__)
+    for a, b in meas:
+        if not any(a <= n.start.t < b for n in notes):
+            out.append("measure in which nothing starts")
+            break
+    return sorted(set(out))
 
 
 # argument KINDS: every shape the signatures / docstrings of the entry points accept
@@ -1211,11 +1502,41 @@ def entries_for(kind, arg=None):
     return [name for name, (f, kinds) in ENTRY.items() if kind in kinds]
 
 
+class _CpuTimeout(BaseException):
+    """an entry point used more than CALL_CPU_LIMIT seconds of CPU time (ITIMER_VIRTUAL: never wall clock)"""
+
+
+CALL_CPU_LIMIT = 10.0
+TIMEOUTS = defaultdict(int)  # entry -> calls that ran into the CPU-time guard (evidence: extra.cpu_timeouts)
+
+
+def _on_vtalrm(signum, frame):
+    raise _CpuTimeout()
+
+
 def call_entry(name, args, prm):
-    """-> ('ok', canonical result) | ('raised', exception type name) | ('protocol', message)."""
+    """-> ('ok', canonical result) | ('raised', exception type name) | ('protocol', message).
+    A call that does not come back within CALL_CPU_LIMIT s of CPU time counts as raised:CpuTimeout (the argument must still
+    be unchanged; termination itself is not C20's business)."""
+    import signal
+
     f = ENTRY[name][0]
+    guard = False
     try:
-        r = f(args, prm)
+        signal.signal(signal.SIGVTALRM, _on_vtalrm)
+        signal.setitimer(signal.ITIMER_VIRTUAL, CALL_CPU_LIMIT)
+        guard = True
+    except (ValueError, OSError):
+        pass  # not the main thread
+    try:
+        try:
+            r = f(args, prm)
+        finally:
+            if guard:
+                signal.setitimer(signal.ITIMER_VIRTUAL, 0)
+    except _CpuTimeout:
+        TIMEOUTS[name] += 1
+        return ("raised", "CpuTimeout")
     except RecursionError:
         return ("raised", "RecursionError")
     except ProtocolError as e:
@@ -2108,6 +2429,20 @@ def direct_writes(kind, args):
         w("note.new_attribute", n0, lambda: setattr(n0, "cached_thing", 1))
         w("timepoint.quarter", len(p._points) > 0, lambda: setattr(p._points[0], "quarter", (p._points[0].quarter or 0) + 1))
         w("timepoint.next", len(p._points) > 1, lambda: setattr(p._points[0], "next", None))
+        w("timepoint.prev", len(p._points) > 1, lambda: setattr(p._points[1], "prev", None))
+
+        def free_t():
+            ts = [tp.t for tp in p._points]
+            for a, b in zip(ts, ts[1:]):
+                if b - a > 1:
+                    return int(a) + 1
+            return (int(ts[-1]) if ts else 0) + 1
+
+        # what a careless lookup does: part.get_or_add_point(t) at a time where nothing starts or ends
+        w("time point inserted where nothing starts or ends", True, lambda: p.get_or_add_point(free_t()))
+        w("time point: int time replaced by the equal float", len(p._points) > 0 and isinstance(p._points[-1].t, int),
+          lambda: setattr(p._points[-1], "t", float(p._points[-1].t)))
+        w("part._quarter_times", True, lambda: p._quarter_times.append(10 ** 6))
         w("part.part_name", True, lambda: setattr(p, "part_name", "renamed"))
         w("part._quarter_durations", True, lambda: p._quarter_durations.append(99))
         w("part.new_attribute", True, lambda: setattr(p, "_cache", {}))
@@ -2135,7 +2470,7 @@ def direct_writes(kind, args):
                 tbl.add(z)
 
         w("object replaced by an equal copy (identity)", n0, replace_by_copy)
-        slurs = list(p.iter_all(S.Slur))
+        slurs = [sl for sl in p.iter_all(S.Slur) if sl.end_note is not None]
         w("slur.end_note", slurs, lambda: setattr(slurs[0], "end_note", None))
         meas = list(p.iter_all(S.Measure))
         w("measure.number", meas, lambda: setattr(meas[0], "number", (meas[0].number or 0) + 100))
@@ -2281,6 +2616,120 @@ def shrink_schedule(case, schedule, prm, finding):
     except Exception:
         pass
     return list(schedule)
+
+
+def _same_finding(f, finding):
+    return f["type"] == finding["type"] and f["entry"] == finding["entry"] and (f["fields"] == finding["fields"] or set(f["fields"]) & set(finding["fields"]))
+
+
+def shrink_case(case, schedule, prm, finding, budget=260, cpu=25.0):
+    """greedy reduction of a generated score-side case that keeps the finding (same type, entry point, an overlapping write set):
+    fewer parts, no links / directions / navigation, fewer notes and rests, fewer timeline features.  -> (case, finding on it)"""
+    import copy
+    import time
+
+    if case.get("kind") != "score":
+        return case, None
+    t0 = time.process_time()
+    n = [0]
+
+    def check(c):
+        n[0] += 1
+        try:
+            fs = run_case(c, schedule, prm)[0]
+        except Exception:
+            return None
+        for f in fs:
+            if _same_finding(f, finding):
+                return f
+        return None
+
+    def candidates(c):
+        spec = c["spec"]
+        if len(spec["parts"]) > 1:
+            for i in range(len(spec["parts"])):
+                d = copy.deepcopy(c)
+                del d["spec"]["parts"][i]
+                d["spec"]["nested_group"] = False
+                yield d
+        for key in ("na_flags",):
+            if spec.get(key):
+                d = copy.deepcopy(c)
+                d["spec"][key] = []
+                yield d
+        for pi, ps in enumerate(spec["parts"]):
+            for key in ("slurs", "tuplets", "ties", "dirs", "clefs", "repeats", "endings", "nav", "attrs_at", "open", "zero"):
+                if ps.get(key):
+                    d = copy.deepcopy(c)
+                    d["spec"]["parts"][pi][key] = []
+                    d["spec"]["parts"][pi].pop("link_cluster", None)
+                    yield d
+            for key in ("keysig", "ts2", "musical_beat", "segments", "pickup", "float_times", "name"):
+                if ps.get(key):
+                    d = copy.deepcopy(c)
+                    d["spec"]["parts"][pi][key] = None if key in ("keysig", "name", "float_times") else False
+                    if key == "ts2":
+                        d["spec"]["parts"][pi].pop("ts2")
+                    yield d
+            if ps.get("staves", 1) > 1:
+                d = copy.deepcopy(c)
+                d["spec"]["parts"][pi]["staves"] = 1
+                for o in d["spec"]["parts"][pi]["notes"] + d["spec"]["parts"][pi]["rests"]:
+                    o["staff"] = 1
+                yield d
+            for k in range(len(ps.get("qchanges", []))):
+                d = copy.deepcopy(c)
+                del d["spec"]["parts"][pi]["qchanges"][k]
+                yield d
+            if not (ps.get("slurs") or ps.get("tuplets") or ps.get("ties")):
+                for key in ("notes", "rests"):
+                    m = len(ps[key])
+                    if m > 4:
+                        for lo, hi in ((0, m // 2), (m // 2, m)):
+                            d = copy.deepcopy(c)
+                            del d["spec"]["parts"][pi][key][lo:hi]
+                            yield d
+                    for k in range(m):
+                        d = copy.deepcopy(c)
+                        del d["spec"]["parts"][pi][key][k]
+                        yield d
+
+    cur, best = copy.deepcopy(case), None
+    progress = True
+    while progress and n[0] < budget and time.process_time() - t0 < cpu:
+        progress = False
+        for d in candidates(cur):
+            if n[0] >= budget or time.process_time() - t0 > cpu:
+                break
+            f = check(d)
+            if f is not None:
+                cur, best, progress = d, f, True
+                break
+    if best is None:
+        best = check(cur)
+    return cur, best
+
+
+def describe_case(case):
+    """one line about a (shrunk) generated score-side argument, for the violation text"""
+    if case.get("kind") != "score":
+        return ""
+    out = []
+    for ps in case["spec"]["parts"][:2]:
+        off = ps.get("offset", 0)
+        d = ["Part(quarter_duration=%s), %s/4, %d measure(s)%s" % (ps["q"], ps["beats"], ps["n_meas"], "" if ps.get("measures") else " (no Measure objects)")]
+        if off:
+            d.append("all times shifted by %s" % off)
+        if ps.get("qchanges"):
+            d.append("set_quarter_duration%s (%s)" % ("".join("(%s, %s)" % tuple(c) for c in ps["qchanges"]), ps.get("qstage")))
+        d.append("notes [start, end) %s" % ["%s-%s" % (n["t"] + off, n["t"] + n["d"] + off) for n in ps["notes"]][:12])
+        if ps["rests"]:
+            d.append("rests %s" % ["%s-%s" % (n["t"] + off, n["t"] + n["d"] + off) for n in ps["rests"]][:8])
+        for key in ("attrs_at", "open", "zero", "trim", "float_times", "pickup"):
+            if ps.get(key):
+                d.append("%s=%s" % (key, json.dumps(ps[key])))
+        out.append("; ".join(d))
+    return (" | argument: " + " || ".join(out))[:700]
 
 
 def dz(hexdigest):
@@ -2589,6 +3038,21 @@ def run(ctx):
             spec["na_skip"] = rng.choice([0, 1, 2])
             spec["na_drop"] = rng.choice([[], ["track", "channel"], ["track", "channel"], ["channel"]])
         cases.append({"kind": fam, "spec": spec})
+    # timeline stream: small one-part scores whose TIMELINE has the shapes the read-only entry points branch on (see
+    # gen_timeline_features), given as every object kind of the score family; measured below (`timeline/...`)
+    tl_kinds = ["Part", "Score", "PartList", "PartGroup", "GroupList", "Part", "Score", "NoteList"]
+    rng.shuffle(tl_kinds)
+    for i in range(20 if quick else 160):
+        ps = gen_part_spec(rng, "P0", n_meas=rng.choice([1, 2, 2, 3]), timeline=True)
+        spec = {"parts": [ps], "group": False, "title": None, "as": tl_kinds[i % len(tl_kinds)], "nested_group": False, "na_flags": [],
+                "part_index": 0, "timeline_stream": True}
+        if spec["as"] == "NoteList":
+            spec.update(notelist_order="shuffled", notelist_seed=rng.randrange(1 << 20), notelist_tied=False)
+        cases.append({"kind": "score", "spec": spec})
+    # ... and a fixed checklist: one small part per POSITION of a divisions change (no random weights: every position is met in every run)
+    for i, ps in enumerate(directed_timeline_specs()):
+        cases.append({"kind": "score", "spec": {"parts": [ps], "group": False, "title": None, "as": ["Part", "Score", "PartList", "GroupList", "PartGroup"][i % 5],
+                                                "nested_group": False, "na_flags": [], "part_index": 0, "timeline_stream": "directed"}})
     traces = []
     mut_entries = defaultdict(int)
     outcome = defaultdict(lambda: [0, 0])
@@ -2605,6 +3069,14 @@ def run(ctx):
         names = entries_for(kind)
         sched = make_schedule(rng, names, 1 if case["kind"] == "file" else rounds)
         fresh = names if (not quick or ci % 3 == 0) else rng.sample(names, min(4, len(names)))
+        try:
+            tl_parts = _parts_of(args[0]) if family(kind) == "score" else [args[1]] if kind == "NoteList" else _parts_of(args[2]) if family(kind) == "align" else []
+            for tp_ in tl_parts:
+                ctx.count("timeline/parts measured")
+                for feat in timeline_stats(tp_):
+                    ctx.count("timeline/" + feat)
+        except Exception as e:
+            ctx.count("timeline/stats failed %s" % type(e).__name__)
         findings, trace, results, kind = check_case(case, sched, prm, fresh)
         del args
         n_calls += len(sched)
@@ -2624,6 +3096,8 @@ def run(ctx):
                 ctx.count("navigation/" + nav)
                 if ps.get("segments"):
                     ctx.count("part/add_segments called beforehand")
+                    if any(k in ("fine", "tocoda") for k, _ in ps["nav"]):
+                        ctx.count("part/add_segments called beforehand + Fine or To Coda")
                 if ps.get("link_cluster"):
                     ctx.count("part/link cluster %s %s %s" % tuple(ps["link_cluster"][:3]))
                 if any(n["sym"] is None for n in ps["notes"]):
@@ -2671,11 +3145,19 @@ def run(ctx):
                     continue
                 small = shrink_schedule(case, sched, {**prm}, f)
                 obj["schedule"] = small
+                # shrink the argument as well (fewer parts, links, notes, timeline features) and report what the SHRUNK case does
+                try:
+                    scase, sf = shrink_case(case, small, {**prm}, f)
+                    if sf is not None:
+                        obj["case"], obj["finding"], f = scase, sf, sf
+                except Exception as e:
+                    ctx.count("shrink_case failed %s" % type(e).__name__)
             what = {"mutates": "read-only entry point %s given a %s changed its argument: wrote %s (%s)",
                     "not_repeatable": "entry point %s given a %s gave a different result when called again on the unchanged argument%s: %s",
                     "history_dependent": "entry point %s given a %s gives a different result after other read-only calls than on a fresh argument%s: %s",
                     "protocol": "client iteration (%s) over a %s: len / indexing / nested, zipped or interleaved iteration are inconsistent%s: %s"}[f["type"]]
-            ctx.violation(what % (f["entry"], kind, ", ".join(f["fields"][:6]) if f["type"] == "mutates" else "", "; ".join(map(str, f["detail"][:3]))[:600]), obj)
+            ctx.violation(what % (f["entry"], kind, ", ".join(f["fields"][:3]) if f["type"] == "mutates" else "", (describe_case(obj["case"]).lstrip(" |") + " ; " + "; ".join(map(str, f["detail"][:3])))[:1100]), obj)
+    ctx.extra["cpu_timeouts"] = dict(TIMEOUTS)
     ctx.extra["entry_outcomes"] = {n: {"ok": v[0], "raised": v[1]} for n, v in sorted(outcome.items())}
     ctx.extra["never_succeeded"] = sorted(n for n, v in outcome.items() if v[0] == 0)
     # the observed footprint per (entry point, argument kind)
